@@ -294,7 +294,8 @@ mod cli {
         let _ = fs::remove_dir_all(work);
         fs::create_dir_all(work).unwrap();
         let work = fs::canonicalize(work).unwrap();
-        // two fixed projects first: the witnesses of the two known defects (DESIGN section 6, #11 and #18)
+        // two fixed projects first: the witness of the former imported-fragment defect (DESIGN section 6, #11, fixed in
+        // /repo) and the witness of the known UTF-16 column defect (#18)
         let corpus: Vec<Proj> = vec![
             Proj {
                 schema_files: vec![("schema/schema.graphql".into(), "type Query {\n  me: User!\n}\n\ntype User {\n  id: ID!\n  name: String\n}\n".into())],
@@ -350,11 +351,24 @@ mod cli {
             let cfg: serde_yaml::Value = serde_yaml::from_str(&pj.config).unwrap();
             let gen = &cfg["extensions"]["nitrogql"]["generate"];
             let norm = |p: PathBuf| -> PathBuf { nitrogql_utils::normalize_path(&p) };
-            let mut outputs: Vec<(PathBuf, Option<usize>, &str)> = vec![];
+            let mut outputs: Vec<(PathBuf, Option<(usize, Vec<usize>)>, &str)> = vec![];
             if let Some(so) = gen["schemaOutput"].as_str() { outputs.push((root.join(so), None, "schema")); }
             if let Some(ro) = gen["resolversOutput"].as_str() { outputs.push((root.join(ro), None, "resolvers")); }
             let ext = match pj.mode { "with-loader-ts-5.0" => "d.graphql.ts", "with-loader-ts-4.0" => "graphql.d.ts", _ => "graphql.ts" };
-            for (j, (p, _, _)) in ofiles.iter().enumerate() { let mut q = p.clone(); q.set_extension(ext); outputs.push((q, Some(sfiles.len() + j), "operation")); }
+            for (j, (p, _, rel)) in ofiles.iter().enumerate() {
+                let mut q = p.clone(); q.set_extension(ext);
+                // contributing_files: the file of every definition of the import-resolved document, in
+                // document order with repetitions (own definitions, then the imported fragments)
+                let me = sfiles.len() + j;
+                let mut contrib: Vec<usize> = vec![];
+                let own = parse_operation_document(&ofiles[j].1).map(|d| d.definitions.iter().filter(|x| !matches!(x, XD::Import(_))).count()).unwrap_or(0);
+                for _ in 0..own { contrib.push(me); }
+                for (_, ffile) in pj.imported_used.get(rel).cloned().unwrap_or_default() {
+                    let fp = root.join(&ffile);
+                    if let Some(jj) = ofiles.iter().position(|x| x.0 == fp) { contrib.push(sfiles.len() + jj); }
+                }
+                outputs.push((q, Some((me, contrib)), "operation"));
+            }
             for (gpath, op, okind) in outputs {
                 let mpath = PathBuf::from(format!("{}.map", gpath.to_string_lossy()));
                 let (gtext, mtext) = match (read(&gpath), read(&mpath)) { (Some(a), Some(b)) => (a, b), _ => {
@@ -370,19 +384,18 @@ mod cli {
                 // definitions printed in G
                 let mut defs: Vec<String> = vec![]; let mut ndefs = 0u64;
                 let mut hints: Vec<&str> = vec![];
-                match (okind, op) {
+                match (okind, &op) {
                     ("schema", _) => for (p, t) in &sfiles { for (id, a, b, _) in schema_defs(t) { defs.push(coq_def(&id, &p.to_string_lossy(), &a, &b)); ndefs += 1; } },
                     // the resolvers file declares every non-input type and the fields of object types
                     ("resolvers", _) => for (p, t) in &sfiles { for (id, a, b, tag) in schema_defs(t) { if tag == 'T' || tag == 'F' { defs.push(coq_def(&id, &p.to_string_lossy(), &a, &b)); ndefs += 1; } } },
-                    ("operation", Some(fi)) => {
-                        let (p, t, rel) = &ofiles[fi - sfiles.len()];
+                    ("operation", Some((fi, _))) => {
+                        let (p, t, rel) = &ofiles[*fi - sfiles.len()];
                         for (ids, _, a, b) in op_defs(t) { for id in ids { defs.push(coq_def(&id, &p.to_string_lossy(), &a, &b)); ndefs += 1; } }
                         for (fname, ffile) in pj.imported_used.get(rel).cloned().unwrap_or_default() {
                             let fp = root.join(&ffile);
                             if let Some((_, ft, _)) = ofiles.iter().find(|x| x.0 == fp) {
                                 for (ids, nm, a, b) in op_defs(ft) { if nm == fname { for id in ids { defs.push(coq_def(&id, &fp.to_string_lossy(), &a, &b)); ndefs += 1; } } }
                             }
-                            if !hints.contains(&"unmapped-file-index-becomes-source-minus-one") { hints.push("unmapped-file-index-becomes-source-minus-one"); }
                         }
                     }
                     _ => {}
@@ -392,20 +405,22 @@ mod cli {
                 if astral_here { hints.push("original-column-in-scalar-values-not-utf16"); }
                 bump!("cli_definitions_checked", ndefs);
                 let gnorm = norm(gpath.clone());
-                let mk = |tol_unmapped: bool, tol_scalar: bool| -> String {
-                    format!("CProj {} {} [mk_mapfile {} {} {} {} {} {} {} {} [{}] {} {}]", sf_term, of_term,
-                        coq_str(&gnorm.to_string_lossy()), coq_opt(&op, |i| coq_n(*i as u64)), coq_u8(&gtext), coq_bool(json_ok), coq_str(&file),
+                let mk = |tol_scalar: bool| -> String {
+                    format!("CProj {} {} [mk_mapfile {} {} {} {} {} {} {} {} [{}] {}]", sf_term, of_term,
+                        coq_str(&gnorm.to_string_lossy()),
+                        coq_opt(&op, |(i, c)| format!("({}, {})", coq_n(*i as u64), coq_list(c, |x| coq_n(*x as u64)))),
+                        coq_u8(&gtext), coq_bool(json_ok), coq_str(&file),
                         coq_list(&sources, |x| coq_str(x)), coq_list(&names, |x| coq_str(x)), coq_str(&mappings), defs.join("; "),
-                        coq_bool(tol_unmapped), coq_bool(tol_scalar))
+                        coq_bool(tol_scalar))
                 };
                 let descr = |twin: bool, hints: &Vec<&str>| json!({"kind": "project", "project": root.to_string_lossy(), "generated_file": gnorm.to_string_lossy(), "output_kind": okind,
                     "mode": pj.mode, "map": v, "lenient_twin": twin, "failure_hints": if twin { vec![] } else { hints.clone() },
                     "schema_files": sfiles.iter().map(|x| x.0.to_string_lossy().to_string()).collect::<Vec<_>>(),
                     "operation_files": ofiles.iter().map(|x| x.0.to_string_lossy().to_string()).collect::<Vec<_>>()});
-                r.cases.push((mk(false, false), descr(false, &hints)));
+                r.cases.push((mk(false), descr(false, &hints)));
                 if !hints.is_empty() {
                     bump!("cli_maps_with_known_defect_hint", 1);
-                    r.cases.push((mk(hints.contains(&"unmapped-file-index-becomes-source-minus-one"), astral_here), descr(true, &hints)));
+                    r.cases.push((mk(astral_here), descr(true, &hints)));
                 }
             }
         }
@@ -588,17 +603,17 @@ fn run_writer(fmap: &Option<Vec<usize>>, ops: &[Wop]) -> Result<(String, String,
     }))
 }
 
-fn writer_case(fmap: &Option<Vec<usize>>, ops: &[Wop], tol: bool) -> (String, Value) {
+fn writer_case(fmap: &Option<Vec<usize>>, ops: &[Wop]) -> (String, Value) {
     let out = run_writer(fmap, ops);
     let o = out.as_ref().ok().cloned();
     let unmapped = ops.iter().any(|o| match (o, fmap) {
         (Wop::WF(_, p, _), Some(m)) => !p.builtin && p.file < m.len() && m[p.file] == usize::MAX,
         _ => false });
-    (format!("CWriter {} {} {} {}", coq_bool(tol), coq_opt(fmap, |m| coq_list(m, |i| coq_n(*i as u64))), coq_list(ops, coq_wop),
+    (format!("CWriter {} {} {}", coq_opt(fmap, |m| coq_list(m, |i| coq_n(*i as u64))), coq_list(ops, coq_wop),
              coq_opt(&o, |(b, m, n)| format!("({}, {}, {})", coq_str(b), coq_str(m), coq_list(n, |s| coq_str(s))))),
      json!({"kind":"writer","file_index_mapper": fmap.as_ref().map(|m| m.iter().map(|i| i.to_string()).collect::<Vec<_>>()),
             "ops": ops.iter().map(json_wop).collect::<Vec<_>>(),
-            "uses_unmapped_file_index": unmapped && !tol, "lenient_twin": tol,
+            "uses_unmapped_file_index": unmapped,
             "out": o.as_ref().map(|(b, m, n)| json!({"buffer": b, "source_map": m, "names": n})), "panic": out.err()}))
 }
 
@@ -722,13 +737,10 @@ fn main() {
     for i in 0..n_wr {
         let fmap = gen_fmap(&mut rng);
         let ops = gen_ops(&mut rng, &fmap, if i % 4 == 0 { 40 } else { 0 }, i % 5 == 0);
-        let (t, d) = writer_case(&fmap, &ops, false);
+        let (t, d) = writer_case(&fmap, &ops);
         if d["panic"].is_string() { bump("writer_panics", 1); } else { bump("writer_ok", 1); }
-        if d["uses_unmapped_file_index"] == json!(true) {
-            // strict case is expected to fail with the known defect; the lenient twin must hold
-            bump("writer_uses_unmapped_file_index", 1);
-            light.push(writer_case(&fmap, &ops, true));
-        }
+        // outside the contract of write_for (tie only; the spec-side predicate does not apply)
+        if d["uses_unmapped_file_index"] == json!(true) { bump("writer_uses_unmapped_file_index", 1); }
         let nontrivial = ops.iter().any(|o| matches!(o, Wop::WF(_, p, _) if !p.builtin));
         if nontrivial && distinct.insert(t.clone()) { bump("writer_distinct_with_segments", 1); }
         bump("writer_ops", ops.len() as u64);
